@@ -471,3 +471,46 @@ def steady_state_relations():
     except Exception as ex:  # noqa
         ev.append({"e": "exception", "msg": "%s: %s" % (type(ex).__name__, str(ex)[:200])})
     return ev
+
+
+def incubation_relations(rng, tier):
+    """incubationTimeNonIsothermal on synthetic heating / cooling histories: the incubation time is finite and non-negative; while the
+    accumulated impingement is still below 1/(theta Z^2) it lies beyond the elapsed time, afterwards within it; the incubation factor
+    exp(-tau/t) lies in [0, 1].  Events for Relations.tla."""
+    from kawin.precipitation import NucleationRate as nr
+    from kawin.precipitation.PrecipitationParameters import MatrixParameters
+    ev = [{"e": "init"}]
+    try:
+        m = MatrixParameters(["B"])
+        theta = float(m.theta)
+        for k in range(40 if tier == "quick" else 400):
+            n = rng.randint(1, 12)
+            times = np.cumsum([rng.uniform(0.0, 5.0)] + [rng.uniform(0.1, 2.0) for _ in range(n)])
+            T0, rate = rng.uniform(600, 900), rng.uniform(-2.0, 2.0)
+            temps = T0 + rate * (times - times[0])
+            Z = rng.uniform(0.01, 0.1)
+            need = 1.0 / (theta * Z ** 2)                     # what the accumulated impingement has to reach
+            elapsed_hist = float(times[-1] - times[0])
+            currTime = float(times[-1] + rng.uniform(0.1, 2.0))
+            currTemp = float(T0 + rate * (currTime - times[0]))
+            unfinished = rng.random() < 0.6
+            beta0 = need / (currTime - times[0]) * (rng.uniform(0.02, 0.4) if unfinished else rng.uniform(3.0, 30.0))
+            betas = beta0 * np.array([rng.uniform(0.8, 1.2) for _ in times])
+            currBeta = float(beta0 * rng.uniform(0.8, 1.2))
+            tau = nr.incubationTimeNonIsothermal(Z, currBeta, currTime, currTemp, betas, times, temps, m)
+            tag = "history %d (%d rows, %s)" % (k, len(times), "incubation not finished" if unfinished else "finished")
+            tau = float(np.squeeze(tau))
+            ev.append({"e": "rel", "group": "C14:incubation-time-finite-and-non-negative(non-isothermal)", "name": tag, "c": "eq" if (math.isfinite(tau) and tau >= 0) else "lt", "want": "eq"})
+            if unfinished:
+                ev.append(rel("C14:incubation-time-beyond-elapsed-time-while-unfinished(non-isothermal)", tag, tau, elapsed_hist, "ge", rtol=1e-12))
+            else:
+                ev.append(rel("C14:incubation-time-within-elapsed-time-once-finished(non-isothermal)", tag, tau, currTime - float(times[0]), "le", rtol=1e-12))
+            with np.errstate(all="ignore"):
+                fac = float(np.squeeze(nr.nucleationRate(np.array([Z]), np.array([currBeta]), np.array([1e-19]), currTemp, np.array([tau]), time=currTime)) /
+                            np.squeeze(nr.nucleationRate(np.array([Z]), np.array([currBeta]), np.array([1e-19]), currTemp, np.array([0.0]), time=currTime)))
+            ev.append({"e": "rel", "group": "C14:incubation-factor-in-[0,1]", "name": tag, "c": "eq" if (0.0 <= fac <= 1.0 + 1e-12) else "gt", "want": "eq"})
+            if unfinished:
+                ev.append(rel("C14:incubation-factor-below-exp(-1)-while-unfinished", tag, fac, math.exp(-elapsed_hist / currTime), "le", rtol=1e-9))
+    except Exception as ex:  # noqa
+        ev.append({"e": "exception", "msg": "%s: %s" % (type(ex).__name__, str(ex)[:200])})
+    return ev
